@@ -505,6 +505,12 @@ func (w *World) execOp(t *Task, idx int) {
 	}
 	switch o.Kind {
 	case opCall, opCallShared, opRetrieve, opCallPublished:
+		if o.Path != nil && o.Path.BothMissingEQ {
+			t.probe("evaluated-eq-between-two-paths")
+		}
+		if o.Path != nil && o.Path.LiteralLeft {
+			t.probe("evaluated-comparison-with-literal-or-root-path-on-the-left")
+		}
 		if strings.HasPrefix(o.Got, "[") {
 			t.probe("evaluation-returned-values")
 		} else {
@@ -590,6 +596,18 @@ func (w *World) run() *RunResult {
 	}
 	if st.Abort != 0 {
 		res.Tainted = true
+	}
+	failedParse := false
+	for _, t := range w.tasks {
+		for _, o := range t.ops {
+			if o.Done && (o.Kind == opParse || o.Kind == opParseFail || o.Kind == opParseInject || o.Kind == opRetrieve || o.Kind == opCustom) &&
+				(strings.HasPrefix(o.Got, "ERR<jsonpath.ErrorInvalid") || strings.HasPrefix(o.Got, "ERR<jsonpath.ErrorFunctionNotFound") || strings.HasPrefix(o.Got, "ERR<jsonpath.ErrorNotSupported") || strings.Contains(o.Got, "InjectedPanic")) {
+				failedParse = true
+			}
+		}
+	}
+	if failedParse && st.Blocked > 0 {
+		res.Probes["parse-failed-in-a-run-with-tasks-waiting-on-the-parse-mutex"]++
 	}
 	if st.Blocked > 0 {
 		res.Probes["task-blocked-on-mutex"] += int(st.Blocked)
